@@ -177,8 +177,9 @@ impl TrainSpec {
 }
 
 fn cells(max: usize) -> BoxedStrategy<Vec<String>> {
-    vec(any::<u16>(), 1..=max)
-        .prop_map(|v| v.iter().map(|&x| CELLS[pick(x, CELLS.len())].to_string()).collect())
+    // mostly 1..=max cells, sometimes a wide row (11-22 cells: two-digit column indices exist)
+    (vec(any::<u16>(), 1..=max), prop_oneof![11 => Just(vec![]), 1 => vec(any::<u16>(), 10..=19)])
+        .prop_map(|(v, wide)| v.iter().chain(wide.iter()).map(|&x| CELLS[pick(x, CELLS.len())].to_string()).collect())
         .boxed()
 }
 
@@ -189,7 +190,7 @@ fn surface() -> BoxedStrategy<String> {
 }
 
 pub fn unigram_template(j: usize) -> BoxedStrategy<String> {
-    vec((0u8..6, 0usize..5), 0..=3)
+    vec((0u8..6, column_index()), 0..=3)
         .prop_map(move |refs| {
             let parts: Vec<String> = refs
                 .iter()
@@ -204,8 +205,14 @@ pub fn unigram_template(j: usize) -> BoxedStrategy<String> {
         .boxed()
 }
 
+/// Column index of a template reference: mostly 0..4, sometimes two- or three-digit (beyond the row width
+/// such a reference expands to '*').
+pub fn column_index() -> BoxedStrategy<usize> {
+    prop_oneof![12 => 0usize..5, 1 => proptest::sample::select(vec![9usize, 10, 11, 12, 19, 20, 21, 100])].boxed()
+}
+
 pub fn bigram_side(j: usize, side: char) -> BoxedStrategy<String> {
-    vec((0u8..5, 0usize..5), 0..=3)
+    vec((0u8..5, column_index()), 0..=3)
         .prop_map(move |refs| {
             let parts: Vec<String> = refs
                 .iter()
